@@ -13,8 +13,12 @@ extern "C" {
 __attribute__((used, visibility("default"))) const char* __asan_default_options() {
     return "exitcode=77:detect_leaks=0:abort_on_error=0:allocator_may_return_null=1:detect_stack_use_after_return=0:max_allocation_size_mb=4096";
 }
+#ifdef SIM_TSAN
+__attribute__((used, visibility("default"))) const char* __ubsan_default_options() { return "halt_on_error=1:print_stacktrace=1"; }
+#else
 __attribute__((used, visibility("default"))) const char* __ubsan_default_options() { return "halt_on_error=1:exitcode=78:print_stacktrace=1"; }
-__attribute__((used, visibility("default"))) const char* __tsan_default_options() { return "exitcode=66:halt_on_error=0:report_signal_unsafe=0"; }
+#endif
+__attribute__((used, visibility("default"))) const char* __tsan_default_options() { return "exitcode=66:halt_on_error=1:report_signal_unsafe=0:second_deadlock_stack=1"; }
 }
 
 using namespace sim;
